@@ -4,7 +4,7 @@
    self.filenames, [ss] is sorted_sources, [setup_build req ss = Some s] means setup_build returned
    (None = KeyError) having written the statements [plan s] and the imports files [store s]. *)
 From Coq Require Import List NArith Bool Arith Relations.
-From PV Require Import Plan.Model Plan.Proofs Plan.StmtProofs Plan.CoverProofs.
+From PV Require Import Plan.Model Plan.Proofs Plan.StmtProofs Plan.CoverProofs Plan.GraphProofs.
 Import ListNotations.
 
 (* ---- 1. every requested file that is analysed at all is checked exactly once ------------- *)
@@ -271,4 +271,105 @@ Example ex_statement :
   parse_build (render true t ++ [120]%N) =
   Some (Parsed [lits (t_out t)] (t_action t) [lits (t_input t)] (map lits (t_deps t))
                [(kw_imports, lits (t_imports t)); (kw_module, lits (t_module t))], [120]%N).
+Proof. vm_compute. reflexivity. Qed.
+
+(* ---- 8. deps_from_import_graph: the wf hypothesis above is discharged for every well-formed import graph --- *)
+(* Input: reversed(import_graph.deps_list()) as [(files of the node, [files of each dependency node])]; a node is
+   one file or a collapsed import cycle; files are stub or source, of any kind.  wf_graph g :=
+   graph_closed [] g (every file of every dependency node occurs in an EARLIER node - the order importlab's
+   topological sort of the collapsed graph yields) /\ NoDup of the full paths of the source files. *)
+Theorem deps_output_wf : forall g, wf_graph g -> wf (deps_from_import_graph g).
+Proof. exact deps_output_wf_lemma. Qed.
+Print Assumptions deps_output_wf.
+
+(* characterisation: the members of the produced groups are exactly the source files of the graph, in order and
+   with multiplicity - a file is in two groups iff the input lists it twice; stubs are in none *)
+Theorem deps_members : forall g, graph_closed [] g ->
+  members (deps_from_import_graph g) = graph_sources g.
+Proof. exact deps_members_lemma. Qed.
+Print Assumptions deps_members.
+
+(* nothing is silently dropped: every source file of every node of the graph is in some group *)
+Theorem deps_complete : forall g node deps f,
+  graph_closed [] g -> In (node, deps) g -> In f node -> g_stub f = false ->
+  In (g_mod f) (members (deps_from_import_graph g)).
+Proof. exact deps_complete_lemma. Qed.
+Print Assumptions deps_complete.
+
+(* Builtin/System modules outside pytype_extensions never get CHECK or INFER, whatever was requested ... *)
+Theorem sys_action : forall req m,
+  is_sys (m_kind m) = true -> m_ext m = false -> get_module_action req m = GENERATE_DEFAULT.
+Proof. exact sys_action_lemma. Qed.
+Print Assumptions sys_action.
+
+Theorem check_action : forall req m,
+  get_module_action req m = CHECK -> In (m_full m) req /\ (is_sys (m_kind m) = false \/ m_ext m = true).
+Proof. exact check_action_lemma. Qed.
+Print Assumptions check_action.
+
+(* ... and no build statement is ever written for one *)
+Theorem sys_never_analysed : forall req ss s t,
+  setup_build req ss = Some s -> In t (plan s) ->
+  exists i, In i (yield_sorted_modules req ss) /\ written_for t i /\
+            (is_sys (m_kind (it_mod i)) = false \/ m_ext (it_mod i) = true).
+Proof. exact sys_never_analysed_lemma. Qed.
+Print Assumptions sys_never_analysed.
+
+(* the composition setup_build . deps_from_import_graph, hypotheses discharged: it returns (no KeyError); every
+   requested analysable source file of the graph gets exactly one CHECK statement; imports entries are produced
+   by declared ancestors; every schedule respecting the declared dependencies is safe *)
+Theorem composed_plan_correct : forall req g, wf_graph g ->
+  exists s, setup_build req (deps_from_import_graph g) = Some s /\
+  (forall node deps f, In (node, deps) g -> In f node -> g_stub f = false ->
+     get_module_action req (g_mod f) = CHECK -> checks_of (m_full (g_mod f)) (plan s) = 1) /\
+  (forall t k p, In t (plan s) -> In (k, p) (s_imports t) ->
+     p = PDefault \/ exists t', In t' (plan s) /\ s_out t' = p /\ clos_trans step (dep_edge (plan s)) t' t) /\
+  (forall start finish, respects (plan s) start finish ->
+     forall t k p, In t (plan s) -> In (k, p) (s_imports t) -> p <> PDefault ->
+     exists t', In t' (plan s) /\ s_out t' = p /\ finish t' <= start t).
+Proof. exact composed_lemma. Qed.
+Print Assumptions composed_plan_correct.
+
+(* both halves of wf_graph are needed (importlab produces neither input; see the monitored hypothesis): *)
+Definition gf (id : N) (stub : bool) (m : module) : gfile := GFile id stub m.
+Definition ga := gf 1 false (mk 1 2 2 Local 2 2).
+Definition gb := gf 2 false (mk 1 3 3 Local 3 3).
+(* a dependency listed AFTER its user: the output is not in dependency order and setup_build raises KeyError *)
+Theorem deps_output_wf_without_order_refuted : exists g,
+  NoDup (map m_full (graph_sources g)) /\ ~ deps_closed [] (deps_from_import_graph g) /\
+  setup_build [2%N] (deps_from_import_graph g) = None.
+Proof.
+  exists [([ga], [[gb]]); ([gb], [])]. split; [apply nodupN_NoDup; vm_compute; reflexivity|]. split.
+  - vm_compute. intros [H _]. destruct (H _ (or_introl eq_refl)).
+  - vm_compute. reflexivity.
+Qed.
+Print Assumptions deps_output_wf_without_order_refuted.
+
+(* a source file listed in two nodes ends up in two groups and is checked twice (while another request is pending) *)
+Theorem deps_file_listed_twice_refuted : exists g s,
+  graph_closed [] g /\ setup_build [2; 3]%N (deps_from_import_graph g) = Some s /\ checks_of 2 (plan s) = 2.
+Proof.
+  exists [([ga], []); ([ga], []); ([gb], [])].
+  destruct (setup_build [2; 3]%N (deps_from_import_graph [([ga], []); ([ga], []); ([gb], [])])) as [s|] eqn:E; [|vm_compute in E; discriminate].
+  exists s. vm_compute in E. inversion E; subst; clear E.
+  split; [simpl; tauto|]. split; reflexivity.
+Qed.
+Print Assumptions deps_file_listed_twice_refuted.
+
+(* non-vacuity: a System leaf, a stub that depends on a source, a 2-cycle containing a stub, and a requested
+   source that reaches the first source only through the stub *)
+Definition g_sys := gf 1 false (mk 9 1 1 System 1 1).
+Definition g_src := gf 2 false (mk 1 2 2 Local 2 2).
+Definition g_stub1 := gf 3 true (mk 1 3 3 Local 3 3).
+Definition g_c1 := gf 4 false (mk 1 4 4 Local 4 4).
+Definition g_c2 := gf 5 true (mk 1 5 5 Local 5 5).
+Definition g_top := gf 6 false (mk 1 6 6 Direct 6 6).
+Definition ex_graph : graph :=
+  [([g_sys], []); ([g_src], [[g_sys]]); ([g_stub1], [[g_src]]); ([g_c1; g_c2], [[g_stub1]]);
+   ([g_top], [[g_c1; g_c2]; [g_stub1]])].
+Example ex_graph_wf : wf_graphb ex_graph = true.
+Proof. vm_compute. reflexivity. Qed.
+Example ex_graph_sources :
+  map (fun gd => (map m_name (fst gd), map m_name (snd gd))) (deps_from_import_graph ex_graph) =
+  [([1], []); ([2], [1]); ([4], [2]); ([6], [4; 2; 2])]%N.
 Proof. vm_compute. reflexivity. Qed.
